@@ -412,6 +412,7 @@ impl Engine for DetSim {
         // canonical environment
         crate::env::rewind();
         let (dom0, root0) = build_env(&t.tree, 0, t.env_seed_salt);
+        let canon0 = spec::canon_dom(&dom0);
         let mut base: Vec<Saved> = Vec::new();
         for f in FORMATS {
             ctx.evals += 1;
@@ -426,6 +427,14 @@ impl Engine for DetSim {
             crate::env::rewind();
             let (dom, root) = build_env(&t.tree, *env, t.env_seed_salt);
             let env_name = ENV_NAMES[*env as usize % ENV_NAMES.len()];
+            // The comparison is only meaningful if both constructions really
+            // yield the same logical tree (public view: shape, order, names,
+            // classes, sorted properties, referents by position). If a DOM
+            // operation itself misbehaves (C09-C11's business) they may not.
+            if spec::canon_dom(&dom) != canon0 {
+                ctx.count(&format!("env_skipped_not_the_same_logical_tree:{}", env_name));
+                continue;
+            }
             ctx.count(&format!("fault_fired:env:{}", env_name));
             for (fi, f) in FORMATS.iter().enumerate() {
                 ctx.evals += 1;
